@@ -50,10 +50,14 @@ def check(run):
             run.ob("C28.R2", "%s:%s._from%s:datify-of-decoded" % (DM, cname, fmt), ok, run.site(fromf),
                    "" if ok else "_from%s does not convert the decoded mapping with datify(cls, d)" % fmt)
             dom = dat[0].targets[0].id if dat and isinstance(dat[0].targets[0], ast.Name) else None
-            guard = [n for n in walk_local(fromf.node) if isinstance(n, ast.If) and n.body and isinstance(n.body[-1], ast.Raise)
+            # `if not isinstance(dom, cls): raise` ... `return dom`, in the loader's positive form `if isinstance(dom, cls): return dom else: raise`
+            guard = [n for n in walk_local(fromf.node) if isinstance(n, ast.If) and unparse(n.test) == "isinstance(%s, cls)" % dom
+                     and n.orelse and isinstance(n.orelse[-1], ast.Raise)] + \
+                    [n for n in walk_local(fromf.node) if isinstance(n, ast.If) and n.body and isinstance(n.body[-1], ast.Raise)
                      and unparse(n.test) == "not isinstance(%s, cls)" % dom]
             rets = [n for n in walk_local(fromf.node) if isinstance(n, ast.Return)]
-            ok = bool(guard) and len(rets) == 1 and dotted(rets[0].value) == dom and guard[0].lineno < rets[0].lineno
+            ok = bool(guard) and len(rets) == 1 and dotted(rets[0].value) == dom and \
+                (guard[0].lineno < rets[0].lineno and (any(rets[0] is x for st in guard[0].body for x in ast.walk(st)) or not guard[0].orelse))
             run.ob("C28.R2", "%s:%s._from%s:instance-check" % (DM, cname, fmt), ok, run.site(fromf),
                    "" if ok else "_from%s can return something that is not an instance of cls (a plain dict when datify gives up)" % fmt)
             shapes.setdefault(fmt, []).append((lib_of(dumps[0])[0] if dumps else None, lib_of(loads[0])[0] if loads else None,
